@@ -29,50 +29,134 @@ Definition render (h : hres) : cls :=
   | HString s => CDelegate s false
   end.
 
+(* ------------------------------------------------------------------ shared helpers *)
+(* s.partition("=") : (before, Some after) or (s, None) *)
+Fixpoint partition_eq (s : str) : str * option str :=
+  match s with
+  | [] => ([], None)
+  | c :: r => if N.eqb c 61 then ([], Some r)
+              else let '(n, v) := partition_eq r in (c :: n, v)
+  end.
+(* [n for n in TABLE if n == name] or [n for n in TABLE if n.startswith(name)] *)
+Definition long_names (tbl : list str) (name : str) : list str :=
+  match filter (fun n => str_eqb n name) tbl with
+  | [] => filter (prefixb name) tbl
+  | l => l
+  end.
+Definition is_none {A} (o : option A) : bool := match o with None => true | Some _ => false end.
+Definition oval (o : option str) : str := match o with Some v => v | None => [] end.
+Definition count_ch (c : N) (t : str) : nat := length (filter (N.eqb c) t).
+
 (* ------------------------------------------------------------------ cli/shell.py *)
-Definition is_c_flag (t : str) : bool := dash t && negb (starts "--" t) && mem_ch 99 t.
-Fixpoint after_c (l : list str) : option (list str) :=
+(* bash's long options first; None = an unknown --long option (ask) *)
+Fixpoint shell_long (l : list str) : option (list str) :=
   match l with
-  | [] => None
-  | t :: r => if is_c_flag t then Some r else after_c r
+  | [] => Some []
+  | t :: r =>
+      if dash t && negb (is "-" t) && negb (is "--" t) then
+        let name := lstrip [45] t in
+        if mem_str name SHELL_LONG_WITH_ARG then match r with [] => Some [] | _ :: r' => shell_long r' end
+        else if mem_str name SHELL_LONG_NO_ARG then shell_long r
+        else if starts "--" t then None
+        else Some l
+      else Some l
+  end.
+(* short option words; owed = words still to skip for the o/O letters seen; result: -c seen, rest *)
+Fixpoint shell_short (l : list str) (want_c : bool) (owed : nat) : bool * list str :=
+  match l with
+  | [] => (want_c, [])
+  | t :: r =>
+      match owed with
+      | S k => shell_short r want_c k
+      | O =>
+          if is "-" t || is "--" t then (want_c, r)
+          else match t with
+               | sign :: c :: cs =>
+                   if N.eqb sign 45 || N.eqb sign 43 then
+                     shell_short r (want_c || mem_ch 99 (c :: cs)) (count_ch 111 t + count_ch 79 t)
+                   else (want_c, l)
+               | _ => (want_c, l)
+               end
+      end
   end.
 Definition shell_h (tokens : list str) : hres :=
   match tokens with
   | [] | [_] => HAsk
-  | _ => match after_c tokens with
-         | None => HAsk
-         | Some [] => HAsk
-         | Some (inner :: _) => match inner with [] => HAsk | _ => HString inner end
-         end
+  | _ :: rest =>
+      if (match rest with [t] => is "--help" t || is "--version" t | _ => false end) then HAllow
+      else match shell_long rest with
+           | None => HAsk
+           | Some l =>
+               match shell_short l false O with
+               | (true, inner :: _) => match inner with [] => HAsk | _ => HString inner end
+               | _ => HAsk
+               end
+           end
   end.
 
 (* ------------------------------------------------------------------ cli/env.py *)
-Definition SPLIT_EQ : str := $"--split-string=".
+(* the first letter of a cluster that takes an argument, and what follows it in the word *)
+Fixpoint env_cluster (cs : str) : option (N * str) :=
+  match cs with
+  | [] => None
+  | c :: r => if mem_str [c] ENV_SHORT_WITH_ARG then Some (c, r) else env_cluster r
+  end.
 Fixpoint env_scan (l : list str) : hres :=        (* l = tokens[i:] *)
   match l with
   | [] => HAllow
   | t :: r =>
       if is "--" t then match r with [] => HAllow | _ => HWords [r] false end
-      else if mem_str t ENV_SPLIT_FLAGS && nonempty r then HString (join [32] r)
-      else if prefixb SPLIT_EQ t then HString (join [32] (skipn (length SPLIT_EQ) t :: r))
-      else if starts "-S" t && Nat.ltb 2 (length t) then HString (join [32] (skipn 2 t :: r))
-      else if mem_str t ENV_FLAGS_WITH_ARG then match r with [] => HAllow | _ :: r' => env_scan r' end
-      else if dash t then env_scan r
+      else if starts "--" t then
+        let '(name, v) := partition_eq (skipn 2 t) in
+        match long_names ENV_LONG_OPTIONS name with
+        | [nm] =>
+            if mem_str nm ENV_LONG_WITH_ARG && is_none v then
+              match r with
+              | [] => HAsk
+              | value :: r' => if is "split-string" nm then HString (join [32] (value :: r')) else env_scan r'
+              end
+            else if is "split-string" nm then HString (join [32] (oval v :: r))
+            else env_scan r
+        | _ => HAsk
+        end
+      else if dash t && Nat.ltb 1 (length t) then
+        match env_cluster (tl' t) with
+        | None => env_scan r
+        | Some (c, []) =>
+            match r with
+            | [] => HAsk
+            | value :: r' => if N.eqb c 83 then HString (join [32] (value :: r')) else env_scan r'
+            end
+        | Some (c, value) => if N.eqb c 83 then HString (join [32] (value :: r)) else env_scan r
+        end
+      else if is "-" t then env_scan r
       else if has_eq t then env_scan r
       else HWords [l] false
   end.
 Definition env_h (tokens : list str) : hres := env_scan (tl' tokens).
 
 (* ------------------------------------------------------------------ cli/xargs.py *)
+Definition INTERACTIVE : str := s2l "--interactive".
+Definition OPEN_TTY : str := s2l "--open-tty".
 Fixpoint xargs_unsafe (l : list str) : bool :=     (* l = tokens[1:] *)
   match l with
   | [] => false
   | t :: r =>
       if is "--" t then false
       else if mem_str t XARGS_UNSAFE_FLAGS then true
-      else if starts "--interactive" t then true
-      else if starts "--open-tty" t then true
+      else if prefixb INTERACTIVE t then true
+      else if prefixb OPEN_TTY t then true
+      else if starts "--" t && Nat.ltb 3 (length t) && (prefixb t INTERACTIVE || prefixb t OPEN_TTY) then true
       else xargs_unsafe r
+  end.
+(* does a short cluster (without its dash) end in an option that takes the NEXT word? *)
+Fixpoint xargs_cluster (cs : str) : bool :=
+  match cs with
+  | [] => false
+  | c :: r =>
+      if mem_str [45; c] XARGS_FLAGS_WITH_ARG || mem_str [c] XARGS_SHORT_OPTIONAL_ARG then
+        match r with [] => negb (mem_str [c] XARGS_SHORT_OPTIONAL_ARG) | _ => false end
+      else xargs_cluster r
   end.
 Fixpoint xargs_skip (l : list str) : list str :=   (* _skip_flags(tokens[1:], FLAGS_WITH_ARG, True): the rest *)
   match l with
@@ -81,19 +165,38 @@ Fixpoint xargs_skip (l : list str) : list str :=   (* _skip_flags(tokens[1:], FL
       if is "--" t then r
       else if negb (dash t) then l
       else if mem_str t XARGS_FLAGS_WITH_ARG then match r with [] => [] | _ :: r' => xargs_skip r' end
-      else xargs_skip r            (* attached short, =-joined, anything else: one word *)
+      else if starts "--" t then
+        let '(name, v) := partition_eq (skipn 2 t) in
+        if (match long_names XARGS_LONG_OPTIONS name with [nm] => mem_str nm XARGS_LONG_WITH_ARG | _ => false end) && is_none v
+        then match r with [] => [] | _ :: r' => xargs_skip r' end
+        else xargs_skip r
+      else if xargs_cluster (tl' t) then match r with [] => [] | _ :: r' => xargs_skip r' end
+      else xargs_skip r
   end.
+(* one of the skipped words asks for replacement (-I -i --replace -J), so nothing is appended *)
+Definition xargs_replaces (skipped : list str) : bool :=
+  existsb (fun t => starts "-I" t || starts "-i" t || starts "--replace" t || starts "--rep" t || starts "-J" t
+                    || (dash t && negb (starts "--" t) && suffixb [73] t)) skipped.
+Definition PLACEHOLDER : str := s2l "{}".
 Definition xargs_h (tokens : list str) : hres :=
   match tokens with
   | [] | [_] => HAsk
   | _ :: rest =>
       if xargs_unsafe rest then HAsk
-      else match xargs_skip rest with [] => HAsk | inner => HWords [inner] false end
+      else match xargs_skip rest with
+           | [] => HAsk
+           | inner =>
+               let skipped := firstn (length rest - length inner) rest in
+               HWords [if xargs_replaces skipped then inner else inner ++ [PLACEHOLDER]] false
+           end
   end.
 
 (* ------------------------------------------------------------------ cli/find.py *)
 Definition find_blocked (tokens : list str) : bool :=
   existsb (fun t => mem_str t FIND_OK_FLAGS || is "-delete" t) tokens.
+(* ; and \; end a clause; + only right after {} *)
+Definition find_ends (t : str) (acc : list str) : bool :=
+  mem_str t FIND_TERMINATORS || (is "+" t && match acc with last :: _ => is "{}" last | [] => false end).
 (* cur = Some acc : inside an -exec clause (acc reversed) *)
 Fixpoint find_clauses (l : list str) (cur : option (list str)) : option (list (list str)) :=
   match l with
@@ -106,7 +209,7 @@ Fixpoint find_clauses (l : list str) (cur : option (list str)) : option (list (l
       match cur with
       | None => if mem_str t FIND_EXEC_FLAGS then find_clauses r (Some []) else find_clauses r None
       | Some acc =>
-          if mem_str t FIND_TERMINATORS then
+          if find_ends t acc then
             match acc with
             | [] => None
             | _ => match find_clauses r None with Some cs => Some (rev acc :: cs) | None => None end
@@ -135,7 +238,6 @@ Definition fd_norm (t : str) : str :=
     match t with
     | _ :: body =>
         let rest := fd_strip body in
-        (* 1 < k < len(token) and token[k] in "xX" *)
         if Nat.ltb (length rest) (length body) then
           match rest with
           | c :: _ => if N.eqb c 120 || N.eqb c 88 then 45 :: rest else t
@@ -150,21 +252,53 @@ Fixpoint fd_attached (t : str) (flags : list str) : option str :=
   | [] => None
   | f :: fs => if prefixb f t && Nat.ltb (length f) (length t) then Some (skipn (length f) t) else fd_attached t fs
   end.
-Fixpoint fd_scan (l : list str) : hres :=          (* l = tokens[i:], i >= 1 *)
+Definition is_semi (t : str) : bool := is ";" t || str_eqb t [92; 59].
+(* split at the first lone ; *)
+Fixpoint fd_cut (l : list str) : list str * option (list str) :=
   match l with
-  | [] => HAllow
-  | t :: r =>
-      if mem_str t FD_EXEC_FLAGS then match r with [] => HAsk | _ => HWords [r] false end
-      else
-        let t' := fd_norm t in
-        if negb (str_eqb t' t) && Nat.eqb (length t') 2 then match r with [] => HAsk | _ => HWords [r] false end
-        else match fd_attached t' FD_ATTACHED with
-             | Some v => HWords [v :: r] false
-             | None => fd_scan r
-             end
+  | [] => ([], None)
+  | t :: r => if is_semi t then ([], Some r) else let '(a, b) := fd_cut r in (t :: a, b)
+  end.
+(* the scan of tokens[1:]; a separate -x/-X takes the words up to a lone ; and the rest is classified
+   again as fd's own arguments (fuel: the recursion of classify on a strictly shorter list) *)
+Fixpoint fd_scan_f (fuel : nat) (l : list str) : hres :=
+  match fuel with
+  | O => HAsk
+  | S f =>
+      (fix scan (l : list str) : hres :=
+         match l with
+         | [] => HAllow
+         | t :: r =>
+             let after_flag :=
+               match r with
+               | [] => HAsk
+               | _ =>
+                   match fd_cut r with
+                   | (_, None) => HWords [r] false
+                   | (cmd, Some rest) =>
+                       (* rest = classify(["fd"] + ...): with fewer than 2 tokens it is allow *)
+                       let rr := match rest with [] => HAllow | _ => fd_scan_f f rest end in
+                       match cmd, rr with
+                       | [], _ => HAsk
+                       | _, HAsk => HAsk
+                       | _, HWords cs _ => HWords (cmd :: cs) false
+                       | _, HString _ => HAsk
+                       | _, HAllow => HWords [cmd] false
+                       end
+                   end
+               end in
+             if mem_str t FD_EXEC_FLAGS then after_flag
+             else
+               let t' := fd_norm t in
+               if negb (str_eqb t' t) && Nat.eqb (length t') 2 then after_flag
+               else match fd_attached t' FD_ATTACHED with
+                    | Some v => HWords [v :: r] false
+                    | None => scan r
+                    end
+         end) l
   end.
 Definition fd_h (tokens : list str) : hres :=
-  match tokens with [] | [_] => HAllow | _ :: rest => fd_scan rest end.
+  match tokens with [] | [_] => HAllow | _ :: rest => fd_scan_f (S (length rest)) rest end.
 
 (* ------------------------------------------------------------------ cli/docker.py (exec path) *)
 Fixpoint docker_action (l : list str) : option (str * list str) :=   (* l = tokens[1:] *)
@@ -175,15 +309,27 @@ Fixpoint docker_action (l : list str) : option (str * list str) :=   (* l = toke
         if mem_str t DOCKER_GLOBAL_FLAGS_WITH_ARG && nonempty r then match r with [] => None | _ :: r' => docker_action r' end else docker_action r
       else Some (t, r)
   end.
-Fixpoint docker_exec_inner (l : list str) : list str :=
+(* does a short cluster (without its dash) end in a flag whose value is the NEXT word? *)
+Fixpoint docker_cluster (cs : str) : bool :=
+  match cs with
+  | [] => false
+  | c :: r => if mem_str [c] DOCKER_EXEC_SHORT_WITH_ARG then match r with [] => true | _ => false end
+              else docker_cluster r
+  end.
+(* the options; what is left starts with the container name *)
+Fixpoint docker_exec_opts (l : list str) : list str :=
   match l with
   | [] => []
   | t :: r =>
       if is "--" t then r
-      else if mem_str t DOCKER_EXEC_FLAGS_WITH_ARG then match r with [] => [] | _ :: r' => docker_exec_inner r' end
-      else if dash t then docker_exec_inner r
-      else r                                           (* the container name *)
+      else if mem_str t DOCKER_EXEC_FLAGS_WITH_ARG then match r with [] => [] | _ :: r' => docker_exec_opts r' end
+      else if starts "--" t then docker_exec_opts r
+      else if dash t && Nat.ltb 1 (length t) then
+        if docker_cluster (tl' t) then match r with [] => [] | _ :: r' => docker_exec_opts r' end
+        else docker_exec_opts r
+      else l
   end.
+Definition docker_exec_inner (l : list str) : list str := tl' (docker_exec_opts l).
 (* None: not the exec path - the rest of the handler is not modelled *)
 Definition docker_h (tokens : list str) : option hres :=
   match tokens with
@@ -210,10 +356,19 @@ Fixpoint kubectl_action (l : list str) : option (str * list str) :=
         if mem_str t KUBECTL_FLAGS_WITH_ARG then match r with [] => None | _ :: r' => kubectl_action r' end else kubectl_action r
       else Some (t, r)
   end.
+Definition KC_ATTACH : list N := [99; 110; 102; 115; 118].   (* "cnfsv" *)
+Definition KC_BOOLS : list N := [105; 116; 113].              (* "itq" *)
+(* the first -- that is not the value of a flag *)
 Fixpoint after_ddash (l : list str) : option (list str) :=
   match l with
   | [] => None
-  | t :: r => if is "--" t then Some r else after_ddash r
+  | t :: r =>
+      if is "--" t then Some r
+      else if dash t && negb (has_eq t) && negb (mem_str t KUBECTL_EXEC_BOOL_FLAGS) then
+        if negb (starts "--" t) && Nat.ltb 2 (length t) && mem_ch (nth 1 t 0) KC_ATTACH then after_ddash r
+        else if negb (starts "--" t) && forallb (fun c => mem_ch c KC_BOOLS) (tl' t) then after_ddash r
+        else match r with [] => None | _ :: r' => after_ddash r' end
+      else after_ddash r
   end.
 Definition kubectl_h (tokens : list str) : option hres :=
   match tokens with
